@@ -329,3 +329,4 @@ def c11_fitter_partial_node(f, replay):
                 return True
         frag, b, a = node.content, b - 1, a - 1
     return False
+
